@@ -228,6 +228,8 @@ class Model:
             pool.append(nm)
         return nm
 
+    MAGIC = ['XA', 'XA', 'SP', 'CE', 'NM', 'RR', 'ER', 'PX', 'SL', 'TF', 'CL', 'PL', 'RE', 'ST', 'XAXA', 'XA\x00', 'AA']
+
     def _fresh_names(self, op, isdir):
         lvl = self.level
         sz, lead, salt, n = op.get('sz', 0), op.get('lead', 0), op.get('salt', 0), op['n']
@@ -246,9 +248,14 @@ class Model:
             # exact lengths requested (sector-filling recipes)
             return {'iso': names.exact_iso_file(n, xl.get('iso', 10), lead), 'rr': names.exact_plain(n, xl.get('rr', 8), lead),
                     'jol': names.exact_plain(n, xl.get('jol', 5), lead), 'udf': names.exact_plain(n, xl.get('udf', 7), lead)}
+        rrn = names.rr_name(n, op.get('rsz', sz), lead, salt)
+        if op.get('magic'):
+            # signatures of on-disc structures right behind the first character of the Rock Ridge name (parsers that sniff for
+            # a structure at a fixed offset of the system use field see the name's characters there)
+            rrn = rrn[0] + self.MAGIC[op['magic'] % len(self.MAGIC)] + rrn[1:]
         return {
             'iso': names.iso_dir(n, lvl, sz, lead, salt, cap) if isdir else names.iso_file(n, lvl, sz, lead, salt, 1, cap),
-            'rr': names.rr_name(n, op.get('rsz', sz), lead, salt),
+            'rr': rrn,
             'jol': names.joliet_name(n, sz, lead, salt),
             'udf': names.udf_name(n, op.get('usz', sz), lead, salt),
         }
@@ -509,6 +516,12 @@ class Model:
     def target_of(self, op):
         """'tx' = [n, tail, head, mid]: one long component of n filler bytes whose pieces (the writer has to split it between
         SL entries) may end up being '.' or '..', optionally with dots in the middle and other components around it."""
+        tc = op.get('tc')
+        if tc:
+            # 'tc' = [component length, count, head]: a target of many short components
+            clen, cnt, head = (list(tc) + [1, 1, 0])[:3]
+            comps = [('abcdefghij'[(i % 7):(i % 7) + max(1, clen)] or 'a') for i in range(max(1, cnt))]
+            return self.TX_HEADS[head % len(self.TX_HEADS)] + '/'.join(comps)
         tx = op.get('tx')
         if not tx:
             return self.target(op.get('tgt', 0))
